@@ -7,6 +7,14 @@ ROOT = os.path.dirname(os.path.dirname(os.path.abspath(__file__)))
 
 # id -> (technique, level text, level note, design ref)
 CHECKS = {
+ "C05": ("proptest crash oracle over verifier-accepted near-valid byte strings and mutated structured programs, interpreted in a forked child under catch_unwind with an instruction budget",
+         "Acceptance by the real verifier is the premise; every accepted program runs on a random VM kind / packet / metadata / helper set; Ok, Err and budget exhaustion are fine, a panic, abort or fatal signal is a violation (signature = panic location). Thorough adds 30x the cases. Exploration.",
+         "Budget exhaustion stands for 'keeps running'; the child process isolates crashes.",
+         "DESIGN.md section 3, C05"),
+ "C12": ("proptest crash + repeatability oracle: jit_compile / cranelift_compile twice in a forked child under catch_unwind, byte-identical JIT output through hook H2",
+         "Verifier-accepted near-valid strings, mutated structured programs, 32k-100k-instruction programs and the 1,000,000-instruction limit case are compiled twice by each compiler; the oracle is Ok/Err without panic or signal, equal verdicts, and identical JIT code bytes. Exploration.",
+         "rbpf's own emit bounds assertion (debug assertions on) and process death detect overruns of the sized buffer; Cranelift code is not compared byte for byte.",
+         "DESIGN.md section 3, C12"),
  "C01": ("proptest differential against an independent reference interpreter with definedness tracking (model-based oracle), fork-isolated",
          "Structured programs over every opcode, register, immediate class, control-flow shape, VM kind and input are executed by the interpreter in a forked child and compared (value or error class, and every packet / metadata byte) with a reference interpreter written from the ISA statement; runs that depend on undefined state are discarded and counted. Long programs (32k/65k/100k+ instructions) are a separate stream. Exploration.",
          "Trusts harness/vrun/src/model.rs; known finding I2 (zero-extended jump immediates) is excluded by its exact signature and reported as KNOWN-FINDING.",
